@@ -261,6 +261,65 @@ def _select(sid, ver):
                     "client": tc.out.describe() if tc.out.done else "waiting-for-more"}}
 
 
+SSEL_CASES = [(L, SV, smax) for L in ((3, 1), (3, 2), (3, 3)) for SV in (None, [(3, 3)], [(3, 4), (3, 3)], [(3, 2)], [(3, 3), (3, 1)], [(3, 4)])
+              for smax in ((3, 4), (3, 3))]
+
+
+def ssel(job):
+    try:
+        return _ssel(*job)
+    except BaseException:
+        import traceback
+        return {"crash": traceback.format_exc(), "sid": str(job)}
+
+
+def _ssel(idx, legacy, sv, smax):
+    """the SERVER under test answers a ClientHello whose legacy version field and supported_versions extension
+    disagree (RFC 8446 4.2.1: the extension alone decides); the suite of its ServerHello must be defined for the
+    version that ServerHello announces"""
+    from ..endpoints import Pair, Task, run_tasks, cred, settings
+    from tlslite.constants import CipherSuite, HandshakeType, ContentType, ExtensionType
+    from tlslite.messages import ServerHello
+    from tlslite.extensions import SupportedVersionsExtension
+    from tlslite.utils.codec import Parser
+    from tlslite.handshakesettings import KEY_EXCHANGE_NAMES, ALL_CIPHER_NAMES, ALL_MAC_NAMES
+    p = Pair("c20ssel-%d" % idx)
+    cs = settings(minVersion=(3, 0), maxVersion=(3, 4), cipherNames=list(ALL_CIPHER_NAMES), macNames=list(ALL_MAC_NAMES),
+                  keyExchangeNames=[k for k in KEY_EXCHANGE_NAMES if "srp" not in k and "anon" not in k])
+    ch, key = cred("rsa")
+    ss = settings(minVersion=(3, 0), maxVersion=smax)
+    orig = p.c._sendMsg
+
+    def wrap(msg, *a, **kw):
+        if msg.contentType == ContentType.handshake and getattr(msg, "handshakeType", None) == HandshakeType.client_hello:
+            msg.client_version = legacy
+            exts = [e for e in msg.extensions if e.extType != ExtensionType.supported_versions]
+            if sv is not None:
+                pos = len(exts) - 1 if exts and exts[-1].extType == ExtensionType.pre_shared_key else len(exts)
+                exts.insert(pos, SupportedVersionsExtension().create(list(sv)))
+            msg.extensions = exts
+        return orig(msg, *a, **kw)
+    p.c._sendMsg = wrap
+    tc = Task("c", p.c.handshakeClientCert(async_=True, settings=cs), p.csock)
+    ts = Task("s", p.s.handshakeServerAsync(certChain=ch, privateKey=key, settings=ss), p.ssock)
+    run_tasks([tc], p.pipes, max_steps=20000)
+    run_tasks([ts], p.pipes, max_steps=20000)
+    wire = bytes(p.s2c.sent_log)
+    if len(wire) < 10 or wire[0] != 22 or wire[5] != 2:
+        return {"skip": "no ServerHello (%s)" % ts.out.describe(), "sid": idx}
+    ln = int.from_bytes(wire[6:9], "big")
+    sh = ServerHello().parse(Parser(bytearray(wire[6:9 + ln])))
+    ext = sh.getExtension(ExtensionType.supported_versions)
+    v = ext.version if ext is not None else sh.server_version
+    name = CipherSuite.ietfNames.get(sh.cipher_suite, "TLS_UNKNOWN_%04x" % sh.cipher_suite)
+    # what the client's hello asks for: the highest version of the extension the server supports, else the legacy field
+    want = max([x for x in sv if x <= smax] or [(0, 0)]) if sv is not None else min(legacy, smax)
+    return {"sid": idx, "ver": [v[0], v[1]], "name": name, "tokens": name.split("_"),
+            "ssel": {"ev": "SSEL", "ver": v[1] if v[0] == 3 else -1, "want": want[1] if want[0] == 3 else -1,
+                     "legacy": legacy[1], "sv": [x[1] for x in sv] if sv is not None else [], "smax": smax[1],
+                     "recver": wire[2]}}
+
+
 MULTI_CLIENTS = [
     ("default", {}),
     ("sha384-only", dict(rsaSigHashes=["sha384"], ecdsaSigHashes=["sha384"])),
@@ -416,6 +475,20 @@ def run(tier):
         traces.append([{"ev": "CFG", "tokens": o["tokens"], "name": o["name"]}, o["sel"]])
         metas.append(o)
     rep.notes["peer_selected_cases"] = nsel
+    # ---- what the server under test selects when legacy version and supported_versions disagree
+    with Pool(16) as pool:
+        ssouts = pool.map(ssel, [(i,) + c for i, c in enumerate(SSEL_CASES)], chunksize=2)
+    nss = 0
+    for o in ssouts:
+        if "crash" in o:
+            rep.machinery_errors.append("server selection case crashed %s: %s" % (o.get("sid"), o["crash"][-500:]))
+            continue
+        if "skip" in o:
+            continue
+        nss += 1
+        traces.append([{"ev": "CFG", "tokens": o["tokens"], "name": o["name"]}, o["ssel"]])
+        metas.append(o)
+    rep.notes["server_selected_cases"] = nss
     # ---- servers with several key pairs
     mjobs = []
     for (d_, v_) in MULTI_SERVERS:
@@ -472,6 +545,15 @@ def run(tier):
                                "why": "server with key pairs %s chose this suite for client '%s' but presented a %s certificate (ServerKeyExchange sent: %s)" % (
                                    mc["server"], mc["client"], mc["certKey"], mc["ske"]),
                                "observed": "-"}, {"mc": mc, "tokens": o["tokens"]})
+            continue
+        if "ssel" in o:
+            se = o["ssel"]
+            rep.case(("ssel", se["legacy"], tuple(se["sv"]), se["smax"]), True)
+            if i in rejected:
+                rep.violation({"suite": o["name"], "ver": "%d.%d" % tuple(o["ver"]),
+                               "why": "ServerHello announces version 3.%d with this suite for a ClientHello with legacy version 3.%d, supported_versions %s (server maximum 3.%d; the hello asks for 3.%d)" % (
+                                   se["ver"], se["legacy"], se["sv"], se["smax"], se["want"]),
+                               "observed": "-"}, {"ssel": se, "tokens": o["tokens"]})
             continue
         if "sel" in o:
             se = o["sel"]
